@@ -54,6 +54,42 @@ def runFuzz (c : Case) : Res :=
     { verdict := "DIFF", tags := "dk=panic" :: tags, msg := "implementation panicked: " ++ String.intercalate " " (impl.drop 2) }
   else { verdict := "ok", tags := tags }
 
+/-- Family `errvis` (C04, application level): visibility of the rejection in every output mode,
+    prefix length, exclusion from the capital-gain totals. -/
+def runErrvis (c : Case) : Res :=
+  let tags := ["nt=C04", s!"secs={(kv? c.header "secs").getD "?"}", s!"nerr={(kv? c.header "nerr").getD "?"}"]
+  if c.lines.any (fun l => l.head? == some "impl" && l[1]? == some "panic") then
+    { verdict := "DIFF", tags := "dk=panic" :: tags, msg := "an output mode panicked" }
+  else
+    let vis := c.lines.filter (fun l => l.head? == some "vis")
+    let badVis := vis.filterMap (fun l =>
+      let sec := l[1]?.getD "?"
+      let g := fun k => (kv? l k).getD "?"
+      if g "model" != "1" then some s!"security {sec}: the rejection message is missing from the render model"
+      else if g "text" != "1" then some s!"security {sec}: the rejection message is missing from the text output"
+      else if g "csv" != "1" then some s!"security {sec}: the rejection message is missing from the CSV output"
+      else if g "rows_model" != g "rows_ledger" then some s!"security {sec}: {g "rows_model"} rows shown, the ledger produced {g "rows_ledger"} before the rejection"
+      else if g "names_date" != "1" then some s!"security {sec}: the message names no transaction date of the security"
+      else none)
+    let num := fun (l : List String) => (l[2]?).bind Acb.parseRat?
+    let exp := c.lines.filter (fun l => l.head? == some "aggexp")
+    let got := c.lines.filter (fun l => l.head? == some "agg")
+    let badAgg := exp.filterMap (fun l =>
+      let key := l[1]?.getD "?"
+      match num l, (got.find? (fun m => m[1]? == some key)).bind num with
+      | some e, some g => if close e g then none else some s!"aggregate {key}: {Acb.ratToString g} shown, the securities that completed add up to {Acb.ratToString e}"
+      | some e, none => if close e 0 then none else some s!"aggregate {key}: missing, expected {Acb.ratToString e}"
+      | none, _ => some s!"aggregate {key}: unparsable")
+    let extraAgg := got.filterMap (fun l =>
+      let key := l[1]?.getD "?"
+      if exp.any (fun m => m[1]? == some key) then none
+      else match num l with
+        | some g => if close g 0 then none else some s!"aggregate {key}: {Acb.ratToString g} shown although no completed security has a gain in that year"
+        | none => none)
+    match badVis ++ badAgg ++ extraAgg with
+    | [] => { verdict := "ok", tags := tags }
+    | m :: _ => { verdict := "ORACLE", tags := "of=C04" :: tags, msg := m }
+
 def dispatch (c : Case) : Res :=
   match c.family with
   | "ledger" => runLedger c
@@ -62,6 +98,7 @@ def dispatch (c : Case) : Res :=
   | "splitneutral" => runSplitneutral c
   | "summary" => runSummary c
   | "fuzz" => runFuzz c
+  | "errvis" => runErrvis c
   | "symparse" => runSymparse c
   | "pages" => runPages c
   | "fmv" => runFmv c
